@@ -79,3 +79,17 @@ def child_env(**extra: str) -> dict:
     )
     env.update(extra)
     return env
+
+
+def use_private_tmp() -> None:
+    """
+    Give *this process* its own temporary directory.
+
+    The pinned tree always reads and writes the model cache under
+    ``tempfile.gettempdir()``; worker processes of one check must not share (and wipe)
+    one cache directory, or the harness itself manufactures cache races.
+    """
+    tmp = scratch() / f"tmp-{os.getpid()}"
+    tmp.mkdir(exist_ok=True)
+    os.environ["TMPDIR"] = str(tmp)
+    tempfile.tempdir = str(tmp)
